@@ -229,9 +229,13 @@ CLAIMED = {
         "Gram-Schmidt step at an arbitrary j and partial state (h_j = <Q_j, w>, conjugate on the basis vector); the inner loop runs j = 0..idx from (A q_idx, 0) "
         "(for_loop by the invariant rule); column idx of H = (h, ||w||, 0..), Q_{idx+1} = w / max(||w||, tol/2), the returned norm; the stopping rule (idx < "
         "min(max_iters, n), ||w|| > tol Re H[1,0] for some column or idx <= 0); the initial state; the cap min(max_iters, n) for loop and buffers; the trimming to the "
-        "steps run; arnoldi_eigs: eig applied to the square part H[:-1], Ritz vector i = Q[:, :m] y_i.",
+        "steps run; arnoldi_eigs: eig applied to the square part H[:-1], Ritz vector i = Q[:, :m] y_i. The Arnoldi relation itself is PROVED from the real code's "
+        "outputs by the invariant rule: fold invariant A q_idx = w_t + sum_{l<t} h_t[l] Q_l (initially; preserved by the real Gram-Schmidt step), hence "
+        "(A q_idx)[r] = sum_{l<idx+2} H'[l,idx] Q'[r,l] for the new column when the normalisation is not clipped, H'[l,idx] = 0 below the sub-diagonal, "
+        "sub-diagonal entry = ||w|| >= 0, older columns untouched (with reachability covers on the hypotheses).",
    design_ref="4.15",
-   note="Orthonormality of the basis and the spectrum claim rest on the modified Gram-Schmidt / Arnoldi theorems (Golub & Van Loan Alg. 10.5.1, Saad Prop. 6.5), ASSUMED and "
+   note="The relation proof uses two facts about finite sums as instances (last-term split; congruence of the summand on the range, implemented as a range-aware "
+        "simplifier) and the field instance x (y / x) = y. Orthonormality of the basis and the spectrum claim rest on the modified Gram-Schmidt / Arnoldi theorems (Golub & Van Loan Alg. 10.5.1, Saad Prop. 6.5), ASSUMED and "
         "exercised by a bounded stand-in on the real code (n <= 30, well-separated spectra), labelled bounded; exact arithmetic: single-pass MGS loses orthogonality in "
         "floating point on clustered spectra (observed: |Q^H Q - I| = 0.7 after 25 steps on gaussian + 30 I), out of reach; Householder variant and batched starts outside the domain.",
    technique="proxy execution of the real loop closures in an index-function domain with summation atoms; loop contracts by the invariant rule; code-equals-spec-function "
